@@ -279,4 +279,17 @@ C04Domain(t) ==
   /\ AsciiConsistent(t)
   /\ ~CachedUnderReplace(t)
   /\ SharedNamesAgreeInTree(t)
+
+(* structural identity of trees: what "built by the same constructor calls" *)
+(* means; cache identities are not part of it                               *)
+RECURSIVE Strip(_)
+Strip(t) ==
+  CASE t.k = "cached" -> [k |-> "cached", inner |-> Strip(t.inner)]
+    [] t.k = "box" -> [k |-> "box", inner |-> Strip(t.inner)]
+    [] t.k = "replace" -> [k |-> "replace", inner |-> Strip(t.inner), repls |-> t.repls]
+    [] t.k = "concat" ->
+         LET ch == Children(t)
+         IN [k |-> "concat", mode |-> t.mode, ch |-> [i \in 1..Len(t.ch) |-> Strip(t.ch[i])],
+             adds |-> [i \in 1..(Len(ch) - Len(t.ch)) |-> Strip(ch[Len(t.ch) + i])]]
+    [] OTHER -> t
 =============================================================================
